@@ -85,7 +85,7 @@ c.finish(
         "over {Flate,LZW,A85,AHx,RL} of length 1-3 is decoded and closed, then 3 Flate + 3 LZW streams of independent "
         "Readers are open at once and read interleaved and must equal their sequential contents - an enumeration of "
         "chains, still a TEST with respect to schedules",
-        "error values as package-level state: a deterministic oracle (coverage.errors) runs a catalogue of 17 failing calls "
+        "error values as package-level state: a deterministic oracle (coverage.errors) runs a catalogue of 18 failing calls "
         "on Reader A alone, on Reader B alone and interleaved and compares err.Error() text, IsMalformed / errors.Is, the "
         "dynamic type chain and MalformedFileError.Loc with the run-alone result; the same calls run concurrently from "
         "independent Readers in the -race mix; a go/ast scan lists package-level *MalformedFileError variables as a diagnostic",
